@@ -101,7 +101,9 @@ def showOuts (o : List Out) : String :=
   let pair (sep : String) (p : Nat × Nat) : String := s!"{p.1}{sep}{p.2}"
   "D[" ++ ",".intercalate (ds.map (pair ":")) ++ "] F[" ++ ",".intercalate (fs.map (pair "*")) ++
   "] P[" ++ ",".intercalate (ps.map (pair "*")) ++ "] J[" ++ ",".intercalate (js.map toString) ++ "] S[" ++
-  ",".intercalate (ss.map (fun p => s!"{p.1 / 10000000000}:{p.1 % 10000000000}*{p.2}")) ++ "]"
+  ",".intercalate (ss.map (fun p => s!"{p.1 / 10000000000}:{p.1 % 10000000000}*{p.2}")) ++ "] G" ++
+  -- pings sent for closing circuits (`pingOuts` never emits one)
+  toString (o.filter (fun x => match x with | .cell _ _ 66 => true | _ => false)).length
 
 def showNode (s : Node) : String :=
   "C[" ++ ",".intercalate ((live s.circuits).map showC) ++ "] R[" ++ ",".intercalate ((live s.relays).map showR) ++
